@@ -1,7 +1,8 @@
 """Seeded scenario generators for the `tree` model (C11, C12, C17)."""
 from harness.models.tree import SINGLETON_KINDS, ODD_EQ_KINDS
 
-IDENT = ['a', 'b', 'c', 'x', 'y', 'res1', '_p', 'class']
+# (names of Handle / ResourceMap attributes are ordinary resource names too)
+IDENT = ['a', 'b', 'c', 'x', 'y', 'res1', '_p', 'class', 'load', 'clear', 'parent', 'key', 'maps', 'cached']
 OTHER = ['', 'a.b', '1x', 'x-y', '@', 'a b'.replace(' ', '+')]
 MANGLED = ['__x', '__a1']          # identifiers that Python mangles inside a class body
 FRESH_KINDS = ['list', 'dict', 'obj'] + ODD_EQ_KINDS
